@@ -93,11 +93,11 @@ theorem zip_roundtrip (t : Node) (mt : List Name → Int) (ht : t.wf = true) (hd
     (p : Str) (cs : List Name) (hv : Ref.validate p = .ok cs) :
     (readZip (zipMembers mt t)).err = none ∧
     Agree t (zipTime (mt cs)) cs ((readZip (zipMembers mt t)).obs p) := by
-  obtain ⟨h1, h2⟩ := readZip_dir_kinds ht hd mt
+  obtain ⟨h1, h2, h3⟩ := readZip_dir_kinds ht hd mt
   refine ⟨h1, ?_⟩
   have hzw : (readZip (zipMembers mt t)).dir.wf = true :=
-    buildDir_wf Ref.State.empty (by decide) rfl _
-  exact zip_obs_agree mt ht hd hzw h2 (fun cs n hne hg => lookupLast_zipMembers ht hd mt hne hg) hv
+    buildDir_wf Ref.State.empty (by decide) rfl _ _
+  exact zip_obs_agree mt ht hd hzw h2 h3 (fun cs n hne hg => lookupLast_zipMembers ht hd mt hne hg) hv
 
 /-- a path that does not validate is refused by the archive as by any filesystem: nothing to compare -/
 example : (readZip (zipMembers (fun _ => 0) (.dir []))).isdir "..".toList = .err .IllegalBackReference := by
@@ -111,30 +111,32 @@ theorem tar_roundtrip (t : Node) (mt : List Name → Int) (ht : t.wf = true) (hd
   tar_obs_agree mt ht hd hv hc
 
 /-
-  FULL STATEMENT (false of the code, see the two counterexamples below):
+  FULL STATEMENT (still false of the code at one point, see the counterexample below):
     ∀ p cs, validate p = ok cs → Agree t (tarTime (mt cs)) cs ((readTar (tarMembers mt t)).obs p)
-  At the root it fails in two ways: `openbin("/")` raises ResourceNotFound where the contract says
-  FileExpected (error class only), and `isdir("/")` is False when the archive has no members.
+  At the root `openbin("/")` raises ResourceNotFound where the contract says FileExpected (error
+  class only).  Everything else holds at the root too — since fix e5a4c4f for *every* tree, the
+  empty one included (before, `isdir("/")` was False for an archive without members).
 -/
 
-/-- TAR ROUND TRIP at the root, for a tree with at least one entry: everything except the error
+/-- TAR ROUND TRIP at the root, for every tree including the empty one: everything except the error
 class of `openbin("/")`. -/
 theorem tar_roundtrip_root_partial (t : Node) (mt : List Name → Int) (ht : t.wf = true)
-    (hd : t.isDir = true) (p : Str) (hv : Ref.validate p = .ok []) (hne : t.entries ≠ []) :
+    (hd : t.isDir = true) (p : Str) (hv : Ref.validate p = .ok []) :
     let o := (readTar (tarMembers mt t)).obs p
     o.exists_ = .ok true ∧ o.isdir = .ok true ∧ o.isfile = .ok false ∧
     (∃ l, o.listdir = .ok l ∧ l.Perm (Ents.names t.entries)) ∧
     o.details = .ok ⟨[], true, none, none⟩ ∧ o.read = .err .ResourceNotFound :=
-  tar_obs_root mt ht hd hv hne
+  tar_obs_root mt ht hd hv
 
-/-- the empty tree does not round-trip through tar: the root of the reopened archive is not a
-directory for `isdir` (it is for `getinfo` and `listdir`) — findings/C15-tar-empty-root.md -/
-theorem tar_empty_root_isdir_counterexample :
-    (readTar (tarMembers (fun _ => 0) (.dir []))).isdir ['/'] = .ok false ∧
+/-- REGRESSION (fix e5a4c4f; was `tar_empty_root_isdir_counterexample`): the empty tree round-trips
+through tar — the root of an archive without members is a directory for `isdir` as well -/
+theorem tar_empty_root_isdir_repaired :
+    (readTar (tarMembers (fun _ => 0) (.dir []))).isdir ['/'] = .ok true ∧
     ((readTar (tarMembers (fun _ => 0) (.dir []))).details ['/']).map (·.isDir) = .ok true ∧
-    (readTar (tarMembers (fun _ => 0) (.dir []))).listdir ['/'] = .ok [] := by decide
+    (readTar (tarMembers (fun _ => 0) (.dir []))).listdir ['/'] = .ok [] ∧
+    (readTar []).isdir [] = .ok true := by decide
 
-/-- `ReadTarFS.openbin("/")` reports the root as missing rather than as a directory -/
+/-- `ReadTarFS.openbin("/")` reports the root as missing rather than as a directory (not fixed) -/
 theorem tar_root_read_class_counterexample :
     (readTar (tarMembers (fun _ => 0) (.dir [("f".toList, .file [])]))).openRead ['/'] = .err .ResourceNotFound := by
   decide
@@ -171,17 +173,19 @@ theorem mtime_to_resolution (m : Int) :
 file below a file), the directory `ReadZipFS` builds is a well-formed tree: every name in it is a
 legal resource name (non-empty, not `.`/`..`, no `/`, no NUL) and unique in its directory. -/
 theorem zip_directory_wf (ms : List Member) : (readZip ms).dir.wf = true :=
-  buildDir_wf Ref.State.empty (by decide) rfl _
+  buildDir_wf Ref.State.empty (by decide) rfl _ _
 
-/-- HOSTILE NAMES.  For every member list and every path string, the names a read-only archive
+/-- HOSTILE NAMES.  For every member list and every path string: the names a read-only archive
 lists are clean components; in a zip every resource that exists at all is reached through clean
-components only. -/
+components only; and the `name` under which ReadTarFS describes a resource is the last component
+of the (normalised) path that was asked for — empty for the root, clean otherwise. -/
 theorem hostile_names_confined (ms : List Member) :
     (∀ p l, (readZip ms).listdir p = .ok l → ∀ c ∈ l, CleanComp c) ∧
     (∀ p l, (readTar ms).listdir p = .ok l → ∀ c ∈ l, CleanComp c) ∧
-    (∀ cs n, (readZip ms).dir.get cs = some n → Clean cs) := by
+    (∀ cs n, (readZip ms).dir.get cs = some n → Clean cs) ∧
+    (∀ p d, (readTar ms).details p = .ok d → d.name = [] ∨ CleanComp d.name) := by
   have hw := zip_directory_wf ms
-  refine ⟨?_, ?_, fun cs n hg => (wf_get hw hg).1.clean⟩
+  refine ⟨?_, ?_, fun cs n hg => (wf_get hw hg).1.clean, ?_⟩
   · intro p l hl c hc
     cases hv : Ref.validate p with
     | err e =>
@@ -234,21 +238,31 @@ theorem hostile_names_confined (ms : List Member) :
             cases hl
             obtain ⟨e, _, rest, hclr, _⟩ := (h3 c).1 hc
             exact (clean_append.1 hclr).2 c List.mem_cons_self
+  · intro p d hd
+    obtain ⟨cs, hcs, _, hname⟩ := tar_details_name _ p d hd
+    rcases list_nil_or_snoc cs with rfl | ⟨i, x, rfl⟩
+    · left; rw [hname]; rfl
+    · right
+      rw [hname, lastName_snoc]
+      exact (clean_append.1 hcs).2 x List.mem_cons_self
 
-/-
-  FULL STATEMENT for "every path visible through the read model is clean" would also cover the
-  `name` of `getinfo`, which `scandir`/`walk` combine into paths.  For ReadZipFS it comes from the
-  directory (clean, by `zip_directory_wf`).  For ReadTarFS it is false:
--/
-
-/-- `ReadTarFS.getinfo` names a resource after the *raw* member name: the member `a/.` is listed
-as `a` but described as `.`, the member `b/c/..` is listed as `b` but described as `..` —
-findings/C15-tar-info-name.md (the walker then loops on `/.` or yields `/..`) -/
-theorem tar_info_name_counterexample :
+/-- REGRESSION (fix b3e3bd5; was `tar_info_name_counterexample`): the members `a/.` and `b/c/..` are
+listed as `a` / `b` and are now also *described* as `a` / `b` (the raw member name gave `.` / `..`,
+on which the walker looped or left the root) -/
+theorem tar_info_name_repaired :
     (readTar [⟨"a/.".toList, true, [], 0⟩]).listdir ['/'] = .ok ["a".toList] ∧
-    ((readTar [⟨"a/.".toList, true, [], 0⟩]).details "a".toList).map (·.name) = .ok ".".toList ∧
-    ((readTar [⟨"b/c/..".toList, false, [1], 0⟩]).details "b".toList).map (·.name) = .ok "..".toList := by
+    ((readTar [⟨"a/.".toList, true, [], 0⟩]).details "a".toList).map (·.name) = .ok "a".toList ∧
+    ((readTar [⟨"b/c/..".toList, false, [1], 0⟩]).details "b".toList).map (·.name) = .ok "b".toList := by
   decide
+
+/-- … in general: every name ReadTarFS lists can be stat'ed, is described under that very name,
+and can be opened when it is a file — for any member list (explicit and implicit directories,
+duplicates, un-normalised names) -/
+theorem tar_listed_paths_stat (ms : List Member) (cs : List Name) (hcs : Clean cs) (l : List Name)
+    (hl : (readTar ms).listdir (mkp true cs) = .ok l) (x : Name) (hx : x ∈ l) :
+    ∃ d, (readTar ms).details (mkp true (cs ++ [x])) = .ok d ∧ d.name = x ∧
+      (d.isDir = false → ∃ b, (readTar ms).openRead (mkp true (cs ++ [x])) = .ok b) :=
+  tar_listed_stat (keyed_tarEntries ms) hcs hl hx
 
 /-- members that climb above the root are dropped by ReadTarFS and abort ReadZipFS's directory at
 that member (first access raises, later accesses see the members before it); neither exposes a
@@ -261,16 +275,31 @@ theorem backref_members :
     (readZip [⟨"ok".toList, false, [1], 0⟩, ⟨"../up".toList, false, [2], 0⟩, ⟨"later".toList, false, [3], 0⟩]).listdir
       ['/'] = .ok ["ok".toList] := by decide
 
-/-- un-normalised zip member names are listed under their normalised path but looked up under it
-too — a raw KeyError (`Err.Leak`) from `openbin`/`readbytes`, and `getinfo` silently loses its
-details — findings/C15-zip-unnormalised-names.md -/
-theorem zip_unnormalised_name_counterexample :
-    (readZip [⟨"a//b".toList, false, [120], 0⟩]).listdir "a".toList = .ok ["b".toList] ∧
-    (readZip [⟨"a//b".toList, false, [120], 0⟩]).openRead "a/b".toList = .err .Leak ∧
-    (readZip [⟨"a//b".toList, false, [120], 0⟩]).readbytes "a/b".toList = .err .Leak ∧
-    (readZip [⟨"a//b".toList, false, [120], 0⟩]).details "a/b".toList = .ok ⟨"b".toList, false, none, none⟩ ∧
-    (readZip [⟨"./a".toList, false, [120], 0⟩]).openRead "a".toList = .err .Leak ∧
-    (readZip [⟨"/abs".toList, false, [120], 0⟩]).openRead "abs".toList = .err .Leak := by decide
+/-- REGRESSION (fix 1679dcb; was `zip_unnormalised_name_counterexample`): members stored under
+un-normalised names are listed under their normalised path *and can be read and stat'ed there*
+(before: raw KeyError from `openbin`/`readbytes`, `details` silently lost) -/
+theorem zip_unnormalised_name_repaired :
+    (readZip [⟨"a//b".toList, false, [120], 7⟩]).listdir "a".toList = .ok ["b".toList] ∧
+    (readZip [⟨"a//b".toList, false, [120], 7⟩]).openRead "a/b".toList = .ok [120] ∧
+    (readZip [⟨"a//b".toList, false, [120], 7⟩]).readbytes "a/b".toList = .ok [120] ∧
+    (readZip [⟨"a//b".toList, false, [120], 7⟩]).details "a/b".toList = .ok ⟨"b".toList, false, some 1, some 7⟩ ∧
+    (readZip [⟨"./a".toList, false, [121], 0⟩]).openRead "a".toList = .ok [121] ∧
+    (readZip [⟨"/abs".toList, false, [122], 0⟩]).openRead "abs".toList = .ok [122] ∧
+    (readZip [⟨"a/../b".toList, false, [123], 0⟩]).openRead "b".toList = .ok [123] ∧
+    (readZip [⟨"d//".toList, true, [], 9⟩]).details "d".toList = .ok ⟨"d".toList, true, some 0, some 9⟩ := by decide
+
+/-- … in general: EVERY LISTED FILE CAN BE OPENED AND STAT'ED, whatever the member names.  At any
+path string that validates to the components of a file of the directory, `openbin`, `readbytes`
+and `getinfo(details)` answer with the bytes, size and mtime of one member of the archive. -/
+theorem zip_listed_files_readable (ms : List Member) (p : Str) (cs : List Name)
+    (hv : Ref.validate p = .ok cs) (b : Bytes) (hg : (readZip ms).dir.get cs = some (.file b)) :
+    ∃ m, m ∈ ms ∧ (readZip ms).openRead p = .ok m.data ∧ (readZip ms).readbytes p = .ok m.data ∧
+      (readZip ms).details p = .ok ⟨Ref.lastName cs, false, some m.data.length, some m.mtime⟩ :=
+  zip_listed_file_readable ms hv hg
+
+/-- with several members normalising to one path the last one is read (`_zip_names` is a dict) -/
+example : (readZip [⟨"a//b".toList, false, [1], 0⟩, ⟨"a/b".toList, false, [2], 0⟩, ⟨"a/./b".toList, false, [3], 0⟩]).openRead
+    "a/b".toList = .ok [3] := by decide
 
 /-! ## duplicates -/
 
